@@ -107,8 +107,30 @@ def actors():
         def apply(self, raw):
             return ('input', 1), ('input', 2)
 
+    class Parallel(flow.Operator):
+        """Feature-union like user operator: the branches are applied side by side (each on the same input, each
+        with its own train / label path) and merged by one N:1 worker per mode - a single, unambiguous tail."""
+
+        def __init__(self, *branches, merger):
+            self._branches = branches
+            self._merger = merger
+
+        def compose(self, scope):
+            left = scope.expand()
+            head = flow.Trunk()
+            apply = flow.Worker(self._merger, len(self._branches), 1)
+            train = apply.fork()
+            for index, trunk in enumerate(branch.expand() for branch in self._branches):
+                trunk.apply.subscribe(head.apply)
+                trunk.train.subscribe(head.train)
+                trunk.label.subscribe(head.label)
+                apply[index].subscribe(trunk.apply.publisher)
+                train[index].subscribe(trunk.train.publisher)
+            return left.extend(head.apply.extend(tail=apply), head.train.extend(tail=train), head.label)
+
     assert Stateful.is_stateful() and not Stateless.is_stateful()
     _CACHE['actors'] = (Stateful, Stateless, Source, Labels)
+    _CACHE['parallel'] = Parallel
     return _CACHE['actors']
 
 
@@ -172,6 +194,9 @@ def build(ast, hp: int = 0):
         )
     if kind == 'seq':
         return build(ast[1], hp) >> build(ast[2], hp)
+    if kind == 'par':  # ['par', [expr, ...], merger_tag]: C04's own extension of the grammar (user-defined operator)
+        actors()
+        return _CACHE['parallel'](*(build(b, hp) for b in ast[1]), merger=_builder([ast[2], False], hp))
     raise ValueError(f'unknown expression kind {kind!r}')
 
 
@@ -242,6 +267,21 @@ def feed():
     return Feed()
 
 
+def sink():
+    """Sink double: one stateless symbolic writer appended to the pipeline (as `Runner._build` does with
+    `sink.save(schema)`)."""
+    from forml import io
+    from forml.pipeline import wrap
+
+    _, Stateless, _, _ = actors()
+
+    class Sink(io.Sink):
+        def save(self, schema):
+            return wrap.Operator.mapper(Stateless, tag=0, hp=_env_hp())()
+
+    return Sink()
+
+
 PROJECT_FILES = {
     '__init__.py': '',
     'source.py': 'from forml import project\nfrom props import c04\nproject.setup(c04.project_source())\n',
@@ -273,7 +313,8 @@ def new_registry(root: str, package: str) -> None:
 
 
 def _listing(registry) -> list:
-    """[(generation, [origin of each committed state, in tag.states order])] read back from the registry files."""
+    """[(generation, [origin of each committed state, in tag.states order])] read back from the registry files
+    (a state that cannot be read is reported as None)."""
     import cloudpickle
     from forml.io import asset
 
@@ -282,17 +323,93 @@ def _listing(registry) -> list:
         tag = registry.open(asset.Project.Key(PROJECT), asset.Release.Key(RELEASE), asset.Generation.Key(g))
         origins = []
         for sid in tag.states:
-            raw = registry.read(asset.Project.Key(PROJECT), asset.Release.Key(RELEASE), asset.Generation.Key(g), sid)
-            origins.append(cloudpickle.loads(raw).get('origin') if raw else None)
+            try:
+                raw = registry.read(asset.Project.Key(PROJECT), asset.Release.Key(RELEASE), asset.Generation.Key(g), sid)
+                origins.append(cloudpickle.loads(raw).get('origin') if raw else None)
+            except Exception:  # pylint: disable=broad-except
+                origins.append(None)
         out.append([g, origins])
     return out
+
+
+def listing_of(root: str):
+    from forml.provider.registry.filesystem import posix
+
+    try:
+        return _listing(posix.Registry(root))
+    except Exception:  # pylint: disable=broad-except
+        return None
+
+
+CRASH_EXIT = 17
+
+
+def _arm_crash(after: int, marker: str) -> None:
+    """Process death inside the commit: the `after`+1-th file-system micro-step (mkdir / open for writing / rename)
+    performed inside `posix.Registry.write` or `posix.Registry.close` does not happen - the process exits."""
+    import pathlib
+
+    from forml.provider.registry.filesystem import posix
+
+    state = {'inside': 0, 'done': 0}
+
+    def scoped(method):
+        def wrapper(self, *args, **kwargs):
+            state['inside'] += 1
+            try:
+                return method(self, *args, **kwargs)
+            finally:
+                state['inside'] -= 1
+
+        return wrapper
+
+    def step(method, writes_only=False):
+        def wrapper(self, *args, **kwargs):
+            mode = args[0] if args else kwargs.get('mode', 'r')
+            if state['inside'] and (not writes_only or any(c in str(mode) for c in 'wax+')):
+                if state['done'] == after:
+                    with open(marker, 'w') as out:
+                        out.write(str(state['done']))
+                    os._exit(CRASH_EXIT)  # pylint: disable=protected-access
+                state['done'] += 1
+            return method(self, *args, **kwargs)
+
+        return wrapper
+
+    posix.Registry.write = scoped(posix.Registry.write)
+    posix.Registry.close = scoped(posix.Registry.close)
+    pathlib.Path.mkdir = step(pathlib.Path.mkdir)
+    pathlib.Path.rename = step(pathlib.Path.rename)
+    pathlib.Path.open = step(pathlib.Path.open, writes_only=True)
+
+
+def _arm_race(action: dict, result: dict) -> None:
+    """Another process re-trains (and commits a new generation) right after the first state load of this action."""
+    from forml.provider.registry.filesystem import posix
+
+    original = posix.Registry.read
+    fired = []
+
+    def read(self, *args, **kwargs):
+        data = original(self, *args, **kwargs)
+        if not fired:
+            fired.append(True)
+            race = dict(action, kind='train', gen=None, race=None, crash=None, run=action['race']['run'],
+                        hp=action['race']['hp'], log=action['log'] + '.race')
+            result['raced'] = _forked(perform, race).get('status')
+        return data
+
+    posix.Registry.read = read
+    result['_disarm'] = lambda: setattr(posix.Registry, 'read', original)
 
 
 def perform(action: dict) -> dict:
     """One lifecycle action against the registry at action['registry'] through the real runner.
 
     action: {'kind': train|apply|perftrack|serve, 'gen': int|None, 'hp': int, 'run': int, 'ast': ..., 'registry': dir,
-             'log': file}.  Returns {'status': 'ok'|'error', 'error': class name, 'where': build|run, 'generations': [...]}.
+             'log': file, 'sink': bool, 'crash': None|k (train: die before the k+1-th micro-step of write/close),
+             'race': None|{'run','hp'} (a re-training commits right after the first state load)}.
+    Returns {'status': 'ok'|'error', 'error': class name, 'where': build|run, 'generations': [...], 'raced': status}.
     """
     from forml.io import asset
     from forml.provider.registry.filesystem import posix
@@ -306,17 +423,21 @@ def perform(action: dict) -> dict:
     registry = posix.Registry(action['registry'])
     result: dict = {'status': 'ok'}
     stage = 'build'
+    extra: dict = {}
+    if action.get('crash') is not None and action['kind'] == 'train':
+        _arm_crash(int(action['crash']), action['log'] + '.crashed')  # only ever in a process of its own
+    if action.get('race') and action['kind'] != 'train':
+        _arm_race(action, extra)
     try:
         instance = asset.Instance(PROJECT, RELEASE, action.get('gen'), asset.Directory(registry))
         kind = action['kind']
+        out = sink() if action.get('sink') else None
         if kind == 'serve':
-            runner = pyfunc.Runner(instance, feed(), None)
+            runner = pyfunc.Runner(instance, feed(), out)
             stage = 'run'
             runner.call(None)
-            if action.get('twice'):
-                runner.call(None)
         else:
-            runner = daskmod.Runner(instance, feed(), None, scheduler='synchronous')
+            runner = daskmod.Runner(instance, feed(), out, scheduler='synchronous')
             stage = 'run'
             with runner:
                 if kind == 'train':
@@ -329,11 +450,11 @@ def perform(action: dict) -> dict:
                     raise ValueError(kind)
     except Exception as err:  # pylint: disable=broad-except
         result = {'status': 'error', 'error': type(err).__name__, 'where': stage, 'message': str(err)[:200]}
-    try:
-        result['generations'] = _listing(posix.Registry(action['registry']))
-    except Exception as err:  # pylint: disable=broad-except
-        result['generations'] = None
-        result['listing_error'] = f'{type(err).__name__}: {err}'[:200]
+    finally:
+        if '_disarm' in extra:
+            extra.pop('_disarm')()
+    result.update(extra)
+    result['generations'] = listing_of(action['registry'])
     return result
 
 
@@ -371,7 +492,7 @@ def action_main() -> int:
 # ==================================================================================================
 # part B — extraction of the composition graph from the real expansion (model input)
 # ==================================================================================================
-def _compositions(ast, hp: int = 0):
+def _compositions(ast, hp: int = 0, with_sink: bool = False):
     """(plain, perf): `Composition` of the pipeline as `Runner._build` assembles it, and of
     `pipeline >> PerfTrackScore` as `Runner._eval` does; perf is {'error': class} if composing it is refused.
     Built in helper frames so that every temporary of the real call path is released before anything is inspected."""
@@ -380,12 +501,13 @@ def _compositions(ast, hp: int = 0):
 
     def plain():
         builder = flow.Composition.builder(source_operator(), None)
-        return builder.via(build(ast, hp)).build(None)
+        return builder.via(build(ast, hp)).build(sink().save(None) if with_sink else None)
 
     def perf():
         spec = project_evaluation()
         builder = flow.Composition.builder(source_operator(), None)
-        return builder.via(build(ast, hp) >> evaluation.PerfTrackScore(spec.metric)).build(None)
+        return builder.via(build(ast, hp) >> evaluation.PerfTrackScore(spec.metric)).build(
+            sink().save(None) if with_sink else None)
 
     first = plain()
     try:
@@ -457,12 +579,15 @@ def extract_comp(comp) -> dict:
             'train_stateful': sorted({nodes[uid[id(n)]][2] for n in visited(comp.train) if n.stateful})}
 
 
-def extract_case(ast) -> dict:
-    """Both compositions of an expression as the model wants them (runs in a scratch process)."""
-    plain, perf = _compositions(ast)
+def extract_case(spec) -> dict:
+    """Both compositions of an expression as the model wants them (runs in a scratch process).
+    spec = ast or {'ast':, 'sink': bool}."""
+    ast, with_sink = (spec['ast'], bool(spec.get('sink'))) if isinstance(spec, dict) else (spec, False)
+    os.environ.setdefault('C04_HP', '0')
+    plain, perf = _compositions(ast, 0, with_sink)
     out = {'plain': extract_comp(plain)}
     out['perf'] = perf if isinstance(perf, dict) else extract_comp(perf)
-    again, _ = _compositions(ast)  # a second fresh expansion must be the same graph up to uuids
+    again, _ = _compositions(ast, 0, with_sink)  # a second fresh expansion must be the same graph up to uuids
     out['stable'] = extract_comp(again) == out['plain']
     return out
 
@@ -470,6 +595,10 @@ def extract_case(ast) -> dict:
 # ==================================================================================================
 # part C — running histories against the real code with different process isolation
 # ==================================================================================================
+class Died(Exception):
+    """The child process exited without delivering a result."""
+
+
 def _forked(func, arg):
     """Run func(arg) in a forked child (fresh copy of this process), JSON result through a pipe."""
     r, w = os.pipe()
@@ -492,13 +621,33 @@ def _forked(func, arg):
     os.close(w)
     with os.fdopen(r) as inp:
         data = inp.read()
-    os.waitpid(pid, 0)
+    _, code = os.waitpid(pid, 0)
     if not data:
-        raise RuntimeError('forked action produced no result')
+        raise Died(f'forked action produced no result (wait status {code})')
     res = json.loads(data)
     if 'fail' in res:
         raise RuntimeError('forked action failed: ' + res['fail'])
     return res['ok']
+
+
+def _crashed(action: dict) -> typing.Optional[dict]:
+    """The result of an action whose process was killed by the armed crash (None if it was not)."""
+    marker = action['log'] + '.crashed'
+    if action.get('crash') is None or not os.path.exists(marker):
+        return None
+    with open(marker) as f:
+        done = int(f.read() or 0)
+    return {'status': 'crashed', 'done': done, 'generations': _forked(listing_of, action['registry'])}
+
+
+def _act_forked(action: dict) -> dict:
+    try:
+        return _forked(perform, action)
+    except Died:
+        res = _crashed(action)
+        if res is None:
+            raise
+        return res
 
 
 def _subprocess(action: dict) -> dict:
@@ -507,6 +656,9 @@ def _subprocess(action: dict) -> dict:
     for line in proc.stdout.split('\n'):
         if line.startswith('C04-RESULT '):
             return json.loads(line[len('C04-RESULT '):])
+    res = _crashed(action)
+    if res is not None:
+        return res
     raise RuntimeError(f'action process failed ({proc.returncode}): {proc.stderr[-800:]}')
 
 
@@ -515,29 +667,34 @@ def _perform_all(actions: list) -> list:
 
 
 def run_case(job: dict) -> dict:
-    """job: {'ast', 'history': [{'kind','gen','hp'}...], 'isolation': subprocess|fork|inprocess, 'package', 'extract'}.
-    Returns {'extract': ..., 'steps': [{'result':..., 'events': [...]}, ...]}."""
+    """job: {'ast', 'sink', 'history': [{'kind','gen','hp','crash','race'}...], 'isolation': subprocess|fork|inprocess,
+    'package', 'extract'}.  Returns {'extract': ..., 'steps': [{'result':..., 'events': [...], 'race_events': [...]}]}."""
     work = tempfile.mkdtemp(prefix='verif-c04-case-')
     try:
         out: dict = {}
         if job.get('extract', True):
-            out['extract'] = _forked(extract_case, job['ast'])
+            out['extract'] = _forked(extract_case, {'ast': job['ast'], 'sink': job.get('sink')})
         registry = os.path.join(work, 'registry')
         _forked(lambda _: new_registry(registry, job['package']), None)
         actions = []
         for i, act in enumerate(job['history']):
             actions.append({'kind': act['kind'], 'gen': act['gen'], 'hp': act['hp'], 'run': i, 'ast': job['ast'],
+                            'sink': bool(job.get('sink')), 'crash': act.get('crash'),
+                            'race': {'run': 100 + i, 'hp': (act['hp'] + 5) % 10} if act.get('race') else None,
                             'registry': registry, 'log': os.path.join(work, f'log-{i}')})
         iso = job['isolation']
+        if iso == 'inprocess' and any(a['crash'] is not None for a in actions):
+            iso = 'fork'  # a process that is to die cannot host the rest of the history
         if iso == 'inprocess':
             results = _forked(_perform_all, actions)
         elif iso == 'fork':
-            results = [_forked(perform, a) for a in actions]
+            results = [_act_forked(a) for a in actions]
         elif iso == 'subprocess':
             results = [_subprocess(a) for a in actions]
         else:
             raise ValueError(iso)
-        out['steps'] = [{'result': r, 'events': read_log(a['log'])} for r, a in zip(results, actions)]
+        out['steps'] = [{'result': r, 'events': read_log(a['log']), 'race_events': read_log(a['log'] + '.race')}
+                        for r, a in zip(results, actions)]
         return out
     finally:
         shutil.rmtree(work, ignore_errors=True)
@@ -585,9 +742,15 @@ def spec_violations(case: dict, steps: list) -> list:
         res = step['result']
         listing = res.get('generations')
         gens_after = [g for g, _ in listing] if listing is not None else list(gens_before)
+        race_run = 100 + i
+        raced = [ev for ev in step.get('race_events') or [] if ev['ev'] == 'train']
         for g in gens_after:
             if g not in gens_before:
-                run_of[g] = i
+                # committed by this action - or, while a non-training action ran, by the re-training racing with it
+                run_of[g] = i if act['kind'] == 'train' else race_run
+        if step.get('race_events'):
+            trained_in[race_run] = {int(ev['tag']) for ev in raced}
+        # the generation the action selects when it starts (explicit, or the latest one listed at that moment)
         if act['gen'] is not None:
             selected = act['gen'] if act['gen'] in gens_before else None
         else:
@@ -645,7 +808,7 @@ def spec_violations(case: dict, steps: list) -> list:
                 elif int(p['run']) != run_of.get(selected):
                     out.append((i, f"{who} is re-trained from a state of run {p['run']}, generation {selected} is of run "
                                    f'{run_of.get(selected)}', 'train:state-of-other-generation'))
-        if res['status'] == 'ok' and listing is not None:
+        if listing is not None:
             gens_before = gens_after
     return out
 
@@ -661,45 +824,92 @@ def _seq(*items):
     return out
 
 
-# hand-picked pipelines (tags are renumbered by pipegen.retag): number / placement of stateful actors, branches,
-# stateful actors used only in train mode, only in apply mode, label operators, transparent and ensemble operators
+def _par(*branches):
+    return ['par', list(branches), 0]
+
+
+# hand-picked pipelines (tags are renumbered by `retag`): number / placement of stateful actors, branches (with a
+# single merged tail), stateful actors used only in train mode, only in apply mode, label operators, transparent and
+# ensemble operators.  Third item: run with a sink (then branching pipelines pass `eval_perftrack`).
 CORPUS_ASTS = [
-    _seq(_M(1), _M(2), _M(3)),                                              # three stateful mappers (DESIGN D3)
-    _seq(_M(1), _M(2)),
-    _M(1),
-    _seq(_M(1, False), _M(2), _M(3, False), _M(4)),
-    ['seq', _M(1), ['seq', _M(2), _M(3)]],                                  # other parenthesisation
-    _seq(['wrap', NONE, [1, True], NONE], _M(2)),                           # stateful apply-only actor first
-    _seq(['wrap', NONE, NONE, [1, True]], _M(2), _M(3)),                    # stateful train-only actor first
-    _seq(_M(1), ['wrap', NONE, NONE, [2, True]], _M(3)),
-    _seq(['wrap', [1, True], NONE, NONE], _M(2), _M(3)),                    # stateful label operator
-    _seq(['wrap', [1, False], [2, True], [2, True]], _M(3)),
-    _seq(['wrap', [1, True], [2, True], [3, True]], _M(4)),                 # label + apply + train, all different
-    _seq(['wrap', NONE, [1, True], [2, True]], _M(3)),                      # different apply / train actors
-    _seq(['mapreduce', [[1, True], [2, True]], 3], _M(4)),                  # branch first
-    _seq(_M(1), ['mapreduce', [[2, True], [3, False], [4, True]], 5]),
-    _seq(_M(1), ['mapreduce', [[2, True], [3, True]], 4], _M(5)),
-    _seq(['debug', [1, False], [2, True]], _M(3), _M(4)),
-    _seq(_M(1), ['debug', [2, False], [3, True]], _M(4)),
-    ['stack', [_M(1), _M(2)], 2, 3, 4, 5, 6],
-    _seq(_M(1), ['stack', [_seq(_M(2), _M(3))], 2, 4, 5, 6, 7]),
-    _seq(_M(1, False), _M(2, False)),                                       # nothing to persist
+    (_seq(_M(1), _M(2), _M(3)), False),                                        # three stateful mappers (DESIGN D3)
+    (_seq(_M(1), _par(_seq(_M(2), _M(3)), _M(4)), _M(5)), True),               # parallel stateful branches, one tail
+    (_seq(['mapreduce', [[1, True], [2, True]], 3], _M(4)), True),             # branch first
+    (_seq(_M(1), _M(2)), True),
+    (_M(1), False),
+    (_seq(_M(1, False), _M(2), _M(3, False), _M(4)), False),
+    (['seq', _M(1), ['seq', _M(2), _M(3)]], True),                             # other parenthesisation
+    (_seq(['wrap', NONE, [1, True], NONE], _M(2)), False),                     # stateful apply-only actor first
+    (_seq(['wrap', NONE, NONE, [1, True]], _M(2), _M(3)), False),              # stateful train-only actor first
+    (_seq(_M(1), ['wrap', NONE, NONE, [2, True]], _M(3)), True),
+    (_seq(['wrap', [1, True], NONE, NONE], _M(2), _M(3)), False),              # stateful label operator
+    (_seq(['wrap', [1, False], [2, True], [2, True]], _M(3)), True),
+    (_seq(['wrap', [1, True], [2, True], [3, True]], _M(4)), False),           # label + apply + train, all different
+    (_seq(['wrap', NONE, [1, True], [2, True]], _M(3)), False),                # different apply / train actors
+    (_seq(_par(_M(1), _M(2), _M(3)), _M(4)), True),                            # three-way fan-out at the source
+    (_seq(_M(1), ['mapreduce', [[2, True], [3, False], [4, True]], 5]), True),
+    (_seq(_M(1), ['mapreduce', [[2, True], [3, True]], 4], _M(5)), False),     # perftrack refused (no sink)
+    (_seq(_par(_par(_M(1), _M(2)), _seq(_M(3), _M(4))), _M(5)), True),         # nested fan-out
+    (_seq(['debug', [1, False], [2, True]], _M(3), _M(4)), False),
+    (_seq(_M(1), ['debug', [2, False], [3, True]], _M(4)), True),
+    (['stack', [_M(1), _M(2)], 2, 3, 4, 5, 6], True),
+    (_seq(_M(1), ['stack', [_seq(_M(2), _M(3))], 2, 4, 5, 6, 7]), False),
+    (_seq(_M(1, False), _M(2, False)), False),                                 # nothing to persist
 ]
 
+# `train!k`: the training process dies before the k+1-th micro-step of its commit; `apply~`: a re-training commits
+# right after the first state load of the action; `apply:1`: explicit generation
 CORPUS_HISTORIES = [
     ['train', 'apply', 'perftrack', 'serve'],
     ['train', 'train', 'apply:1', 'apply', 'perftrack:1', 'serve:1'],
     ['train', 'perftrack', 'train', 'perftrack', 'apply:2'],
+    ['train', 'apply~', 'perftrack~', 'serve~', 'apply', 'perftrack:1'],
     ['apply', 'train', 'serve', 'train:1', 'apply:3', 'apply:2'],
+    ['train', 'train!7', 'apply', 'perftrack', 'train!9', 'serve'],
 ]
 
 
 def _parse_history(spec: list, rng=None) -> list:
     out = []
     for i, item in enumerate(spec):
+        race = item.endswith('~')
+        item = item.rstrip('~')
+        item, _, crash = item.partition('!')
         kind, _, gen = item.partition(':')
-        out.append({'kind': kind, 'gen': int(gen) if gen else None, 'hp': (i * 7 + 3) % 10 if rng is None else rng.randint(0, 9)})
+        out.append({'kind': kind, 'gen': int(gen) if gen else None, 'crash': int(crash) if crash else None, 'race': race,
+                    'hp': (i * 7 + 3) % 10 if rng is None else rng.randint(0, 9)})
     return out
+
+
+def retag(ast, counter=None):
+    """props/pipegen.retag extended by 'par': tags renumbered 1.. in traversal order."""
+    from props import pipegen
+
+    counter = counter or itertools.count(1)
+    k = ast[0]
+    if k == 'seq':
+        left = retag(ast[1], counter)
+        return ['seq', left, retag(ast[2], counter)]
+    if k == 'par':
+        branches = [retag(b, counter) for b in ast[1]]
+        return ['par', branches, next(counter)]
+    if k == 'stack':
+        tags = [next(counter) for _ in range(4)]
+        return ['stack', [retag(b, counter) for b in ast[1]], int(ast[2])] + tags
+    return pipegen.retag(ast, counter)
+
+
+def shape(ast) -> str:
+    from props import pipegen
+
+    k = ast[0]
+    if k == 'seq':
+        return f'({shape(ast[1])}>{shape(ast[2])})'
+    if k == 'par':
+        return 'par[' + '|'.join(shape(b) for b in ast[1]) + ']'
+    if k == 'stack':
+        return f'stk{ast[2]}[' + ','.join(shape(b) for b in ast[1]) + ']'
+    return pipegen.shape(ast)
 
 
 class C04(fw.Check):
@@ -732,22 +942,36 @@ class C04(fw.Check):
 
     # ---- generation ----------------------------------------------------------------------------
     def _asts(self, count: int) -> list:
+        """[(expression, with sink)]: the corpus first, then random ones."""
         from props import pipegen
 
         gen = pipegen.Gen(self.rng)
-        out = [pipegen.retag(a) for a in CORPUS_ASTS]
+        out = [(retag(a), snk) for a, snk in CORPUS_ASTS]
         while len(out) < count:
-            n = self.rng.choice([1, 2, 2, 3, 3, 3, 4, 4, 5])
+            rng = self.rng
+            n = rng.choice([1, 2, 2, 3, 3, 3, 4, 4, 5])
             ast = gen.expr(n)
-            if self.rng.random() < 0.5:
+            r = rng.random()
+            if r < 0.3:
+                # parallel branches that each hold stateful actors, merged into one tail, between stateful mappers
+                other = gen.expr(rng.choice([1, 1, 2])) if rng.random() < 0.6 else _M(0)
+                branches = [ast, other] + ([_M(0, rng.random() < 0.8)] if rng.random() < 0.3 else [])
+                rng.shuffle(branches)
+                parts = [_par(*branches)]
+                if rng.random() < 0.6:
+                    parts.insert(0, _M(0, rng.random() < 0.8))
+                if rng.random() < 0.7:
+                    parts.append(_M(0, rng.random() < 0.8))
+                ast = retag(_seq(*parts))
+            elif r < 0.65:
                 # bias towards several stateful mappers in a chain (where positions matter)
-                extra = [_M(0, self.rng.random() < 0.8) for _ in range(self.rng.choice([1, 2, 3]))]
-                parts = extra[:1] + [ast] + extra[1:] if self.rng.random() < 0.5 else [ast] + extra
-                ast = pipegen.retag(_seq(*parts))
-            out.append(ast)
+                extra = [_M(0, rng.random() < 0.8) for _ in range(rng.choice([1, 2, 3]))]
+                parts = extra[:1] + [ast] + extra[1:] if rng.random() < 0.5 else [ast] + extra
+                ast = retag(_seq(*parts))
+            out.append((ast, rng.random() < 0.6))
         return out[:count]
 
-    def _history(self) -> list:
+    def _history(self, faults: bool = True) -> list:
         rng = self.rng
         n = rng.choice([2, 3, 3, 4, 4, 5, 6])
         out = []
@@ -762,26 +986,50 @@ class C04(fw.Check):
                 gen = rng.randint(1, trained)
             elif rng.random() < 0.04:
                 gen = trained + rng.randint(1, 2)  # not listed
-            out.append({'kind': kind, 'gen': gen, 'hp': rng.randint(0, 9)})
+            crash, race = None, False
+            if faults and kind == 'train' and rng.random() < 0.2:
+                crash = rng.randint(0, 16)  # beyond the last micro-step: the training completes
+            if faults and kind != 'train' and trained and rng.random() < 0.25:
+                race = True
+            out.append({'kind': kind, 'gen': gen, 'hp': rng.randint(0, 9), 'crash': crash, 'race': race})
             if kind == 'train' and (gen is None or gen <= trained):
                 trained += 1  # upper bound of the generations that may exist
+            if race:
+                trained += 1
         return out
 
     def _jobs(self) -> list:
-        from props import pipegen
-
         plan = {'subprocess': self.n(8, 60), 'fork': self.n(36, 400), 'inprocess': self.n(36, 400)}
         jobs = []
         for iso, count in plan.items():
-            asts = self._asts(count)
-            for k, ast in enumerate(asts):
+            for k, (ast, snk) in enumerate(self._asts(count)):
                 if k < len(CORPUS_ASTS):
                     hist = _parse_history(CORPUS_HISTORIES[(k + len(iso)) % len(CORPUS_HISTORIES)])
                 else:
                     hist = self._history()
                 if iso == 'subprocess' and self.quick:
                     hist = hist[:4]  # a fresh interpreter costs ~2.5 s per action
-                jobs.append({'ast': ast, 'history': hist, 'isolation': iso, 'shape': pipegen.shape(ast)})
+                jobs.append({'ast': ast, 'sink': snk, 'history': hist, 'isolation': iso, 'shape': shape(ast)})
+        return jobs + self._sweep_jobs()
+
+    def _sweep_jobs(self) -> list:
+        """A training that dies at *each* micro-step of its commit (state files staged, directory, files moved, tag
+        written, tag published), followed by every loading mode in fresh processes; and every loading mode racing
+        with a commit.  Pipelines: a chain and parallel stateful branches with one tail."""
+        chain = retag(_seq(_M(1), _M(2)))
+        fan = retag(_seq(_M(1), _par(_seq(_M(2), _M(3)), _M(4)), _M(5)))
+        jobs = []
+        sweeps = [(chain, range(0, 10)), (fan, range(0, 19, 2) if self.quick else range(0, 19))]
+        if not self.quick:
+            sweeps.append((retag(_seq(['mapreduce', [[1, True], [2, True]], 3], _M(4))), range(0, 13)))
+        for ast, ks in sweeps:
+            for k in ks:
+                hist = _parse_history(['train', f'train!{k}', 'apply', 'perftrack', 'serve', 'train', 'apply:1'])
+                jobs.append({'ast': ast, 'sink': True, 'history': hist, 'shape': shape(ast) + ' crash-sweep',
+                             'isolation': 'fork' if self.quick or k % 4 else 'subprocess'})
+            for iso in ('fork', 'inprocess'):
+                hist = _parse_history(['train', 'train', 'apply~', 'perftrack~', 'serve~', 'apply:1~', 'perftrack', 'train'])
+                jobs.append({'ast': ast, 'sink': True, 'history': hist, 'shape': shape(ast) + ' race-sweep', 'isolation': iso})
         return jobs
 
     # ---- running -------------------------------------------------------------------------------
@@ -822,9 +1070,16 @@ class C04(fw.Check):
             return ['error']
         return ['comp', [list(n) for n in c['nodes']], [list(e) for e in c['edges']]] + list(c['heads'])
 
-    def _model_line(self, job: dict, ext: dict) -> str:
-        acts = [[a['kind'], a['gen'], i, a['hp'], 1000 * (i + 1)] for i, a in enumerate(job['history'])]
-        return sexp.dumps(['case', self._comp_sexp(ext['plain']), self._comp_sexp(ext['perf']), acts])
+    def _model_line(self, job: dict, ext: dict, steps: typing.Optional[list] = None) -> str:
+        """The case for the model. Faults are told as they really happened: a crash only if the process died (with the
+        number of completed micro-steps), a race only if the racing re-training ran and committed."""
+        acts = []
+        for i, a in enumerate(job['history']):
+            res = steps[i]['result'] if steps else {}
+            crash = res.get('done') if res.get('status') == 'crashed' else None
+            race = [100 + i, (a['hp'] + 5) % 10] if res.get('raced') == 'ok' else None
+            acts.append([a['kind'], a['gen'], i, a['hp'], 1000 * (i + 1), crash, race])
+        return sexp.dumps(['case', self._comp_sexp(ext['plain']), self._comp_sexp(ext['perf']), bool(job.get('sink')), acts])
 
     @staticmethod
     def _model_steps(answer: str):
@@ -846,8 +1101,8 @@ class C04(fw.Check):
 
     def _judge(self, job: dict, res: dict, model: typing.Optional[dict]) -> None:
         """Oracle on the real behaviour + comparison with the model for one case."""
-        case = {'ast': job['ast'], 'history': job['history'], 'isolation': job['isolation']}
-        key = (json.dumps(job['ast']), json.dumps(job['history']), job['isolation'])
+        case = {'ast': job['ast'], 'sink': bool(job.get('sink')), 'history': job['history'], 'isolation': job['isolation']}
+        key = (json.dumps(job['ast']), bool(job.get('sink')), json.dumps(job['history']), job['isolation'])
         if 'machinery' in res:
             raise fw.MachineryError(f"case {case} could not be run: {res['machinery']}")
         ext = res.get('extract') or {}
@@ -859,16 +1114,19 @@ class C04(fw.Check):
                 holders = [e for e in st['events'] if e['ev'] == 'apply' and e.get('stateful') and e.get('origin')]
                 loaded = max(loaded, len(holders))
         self.case(key, f"{job['isolation']} {job['shape'] if len(job['shape']) < 40 else 'large'}", nontrivial=loaded >= 2,
-                  sample={'ast': job['ast'], 'history': job['history'], 'isolation': job['isolation'],
+                  sample={'ast': job['ast'], 'sink': bool(job.get('sink')), 'history': job['history'], 'isolation': job['isolation'],
                           'first_apply': impl_observations(next((s['events'] for a, s in zip(job['history'], steps)
                                                                  if a['kind'] != 'train'), []))[:6]})
         for st in steps:
             r = st['result']
             self.extra.setdefault('action_outcomes', collections.Counter())[
-                r['status'] if r['status'] == 'ok' else f"error:{r.get('error')}"] += 1
+                r['status'] if r['status'] in ('ok', 'crashed') else f"error:{r.get('error')}"] += 1
+            if r.get('raced'):
+                self.extra['action_outcomes'][f"raced:{r['raced']}"] += 1
         # --- oracle (real code only)
         for i, what, sig in spec_violations(case, steps):
-            witness = {'ast': job['ast'], 'history': job['history'][: i + 1], 'isolation': job['isolation'], 'step': i}
+            witness = {'ast': job['ast'], 'sink': bool(job.get('sink')), 'history': job['history'][: i + 1],
+                       'isolation': job['isolation'], 'step': i}
             self.violate(what, witness, sig, {'events': impl_observations(steps[i]['events'])[:12]})
         # --- expansion stability on the real code
         if ext and not ext.get('stable', True):
@@ -895,6 +1153,14 @@ class C04(fw.Check):
                 # a segment that consists of the source worker alone has no linkage at all (Table.__iter__ asserts)
                 self.histogram['(step skipped: nothing on this path, compiler asserts)'] += 1
                 continue
+            if r['status'] == 'crashed':
+                # the process died inside its commit: only the registry can be compared
+                ngens = len(r['generations']) if r.get('generations') is not None else None
+                if ms['status'] != 'ok' or ngens != ms['ngens']:
+                    self.diverge(f"generations listed after a training died at micro-step {r.get('done')} of its commit",
+                                 {**case, 'step': i}, ngens, ms.get('ngens', ms.get('error')))
+                    return
+                continue
             if r['status'] != ms['status']:
                 if ms['status'] == 'error':
                     # the implementation accepts what the model refuses: not the property's business, stop comparing
@@ -919,7 +1185,7 @@ class C04(fw.Check):
         lines, idx = [], []
         for k, (job, res) in enumerate(zip(jobs, results)):
             if 'machinery' not in res and res.get('extract'):
-                lines.append(self._model_line(job, res['extract']))
+                lines.append(self._model_line(job, res['extract'], res['steps']))
                 idx.append(k)
         answers = dict(zip(idx, self.model(lines))) if lines else {}
         for k, (job, res) in enumerate(zip(jobs, results)):
@@ -946,8 +1212,8 @@ class C04(fw.Check):
                 if not any(leaf_stateful(ast)):
                     continue
                 hist = _parse_history(CORPUS_HISTORIES[k % len(CORPUS_HISTORIES)])
-                jobs.append({'ast': ast, 'history': hist, 'isolation': 'inprocess' if k % 2 else 'fork',
-                             'shape': pipegen.shape(ast)})
+                jobs.append({'ast': ast, 'sink': k % 3 == 0, 'history': hist, 'isolation': 'inprocess' if k % 2 else 'fork',
+                             'shape': shape(ast)})
                 k += 1
         return jobs
 
@@ -977,16 +1243,14 @@ class C04(fw.Check):
         seeds = []
         for d in self.divergences[:12]:
             if isinstance(d.case, dict) and 'ast' in d.case:
-                seeds.append(d.case['ast'])
-        from props import pipegen
-
+                seeds.append((d.case['ast'], bool(d.case.get('sink'))))
         if not seeds:
-            seeds = [pipegen.retag(a) for a in CORPUS_ASTS[:8]]
+            seeds = [(retag(a), snk) for a, snk in CORPUS_ASTS[:8]]
         jobs = []
-        for ast in seeds:
+        for ast, snk in seeds:
             for iso in ('inprocess', 'fork'):
                 for hist in CORPUS_HISTORIES:
-                    jobs.append({'ast': ast, 'history': _parse_history(hist), 'isolation': iso, 'shape': pipegen.shape(ast)})
+                    jobs.append({'ast': ast, 'sink': snk, 'history': _parse_history(hist), 'isolation': iso, 'shape': shape(ast)})
         before = len(self.violations)
         for job, res in zip(jobs, self._run(jobs)):
             if 'machinery' in res:
@@ -994,14 +1258,16 @@ class C04(fw.Check):
             case = {'ast': job['ast'], 'history': job['history'], 'isolation': job['isolation'],
                     'apply_stateful': ((res.get('extract') or {}).get('plain') or {}).get('apply_stateful')}
             for i, what, sig in spec_violations(case, res['steps']):
-                self.violate(what, {'ast': job['ast'], 'history': job['history'][: i + 1], 'isolation': job['isolation'], 'step': i}, sig)
+                self.violate(what, {'ast': job['ast'], 'sink': job['sink'], 'history': job['history'][: i + 1],
+                                    'isolation': job['isolation'], 'step': i}, sig)
         self.notes.append(f'failing-input search ({reason}): {len(jobs)} histories around {len(seeds)} expressions, '
                           f'{len(self.violations) - before} violations of the property found on the real code')
 
     def _shrink(self, witness: dict, signature: str) -> dict:
         """Smaller witness with the same signature: drop actions that are not needed, then try sub-expressions."""
         def fails(w):
-            res = _run_case_safe({'ast': w['ast'], 'history': w['history'], 'isolation': w['isolation'], 'package': self._package})
+            res = _run_case_safe({'ast': w['ast'], 'sink': w.get('sink'), 'history': w['history'], 'isolation': w['isolation'],
+                                  'package': self._package})
             if 'machinery' in res:
                 return False
             case = dict(w, apply_stateful=((res.get('extract') or {}).get('plain') or {}).get('apply_stateful'))
@@ -1030,7 +1296,8 @@ class C04(fw.Check):
     def replay_finding(self, entry):
         w = entry['witness']
         self._setup()
-        res = _run_case_safe({'ast': w['ast'], 'history': w['history'], 'isolation': w.get('isolation', 'fork'), 'package': self._package})
+        res = _run_case_safe({'ast': w['ast'], 'sink': w.get('sink'), 'history': w['history'],
+                              'isolation': w.get('isolation', 'fork'), 'package': self._package})
         if 'machinery' in res:
             raise fw.MachineryError(res['machinery'])
         case = dict(w, apply_stateful=((res.get('extract') or {}).get('plain') or {}).get('apply_stateful'))
@@ -1052,11 +1319,23 @@ def leaf_stateful(ast):
         return [bool(ast[1][1]), bool(ast[2][1])]
     if k == 'stack':
         return [True] + [f for b in ast[1] for f in leaf_stateful(b)]
+    if k == 'par':
+        return [f for b in ast[1] for f in leaf_stateful(b)]
     return []
 
 
 def _subexpressions(ast):
-    """Strictly smaller expressions obtained by dropping one side of a `seq`."""
+    """Strictly smaller expressions: one side of a `seq`, one branch of a `par`, recursively."""
+    if ast[0] == 'par':
+        for b in ast[1]:
+            yield b
+        if len(ast[1]) > 2:
+            for i in range(len(ast[1])):
+                yield ['par', ast[1][:i] + ast[1][i + 1:], ast[2]]
+        for i, b in enumerate(ast[1]):
+            for sub in _subexpressions(b):
+                yield ['par', ast[1][:i] + [sub] + ast[1][i + 1:], ast[2]]
+        return
     if ast[0] != 'seq':
         return
     yield ast[1]
